@@ -431,5 +431,10 @@ class LongHistory(Part):
 
 
 def parts(tier, seed):
+    from props import c05
+
+    cli = c05.PrivatePart(tier, seed)
+    cli.name = "cli_private_and_listed_networks"
+    cli.desc = "main() with --preserve-private-addresses / --preserve-addresses / --preserve-prefixes: outside stays outside"
     return [PrefixPart(tier, seed), HostBitsPart(tier, seed), LazyPart(tier, seed), WiringPart(tier, seed),
-            LongHistory(tier, seed)]
+            LongHistory(tier, seed), cli]
